@@ -18,6 +18,9 @@ type mnode struct {
 	// layer keeps its parent pointer to the replaced diff layer object, whose own parent is
 	// the stale former disk layer (see layerTree.cap: only `diff.parent` is re-linked).
 	staleLink bool
+	// staleParentEdge is the transition of that flattened parent: the replaced diff layer
+	// object still serves the nodes it modified.
+	staleParentEdge *statehist.Edge
 }
 
 // model mirrors the exported behaviour of pathdb's layer tree: which roots are live, how
@@ -204,6 +207,7 @@ func (m *model) cap(root common.Hash, layers int) {
 	for c, n := range keep {
 		if n.parent == target.st.Root && n != diff {
 			n.staleLink = true
+			n.staleParentEdge = target.edge
 			_ = c
 		}
 	}
@@ -243,4 +247,25 @@ func (m *model) source(root common.Hash, modifies func(e *statehist.Edge) bool, 
 		}
 	}
 	return "disk"
+}
+
+// staleNodeReadFails predicts, for a live root whose parent chain passes a stale link,
+// whether a node read must hit the stale former disk layer: it does unless a diff layer on
+// the path from root down to the stale-linked layer, or the replaced (flattened) parent
+// object itself, modified the node.
+func (m *model) staleNodeReadFails(root common.Hash, modifies func(e *statehist.Edge) bool) bool {
+	for root != m.base.Root {
+		n := m.diffs[root]
+		if n == nil {
+			return false
+		}
+		if modifies(n.edge) {
+			return false
+		}
+		if n.staleLink {
+			return !modifies(n.staleParentEdge)
+		}
+		root = n.parent
+	}
+	return false
 }
